@@ -142,6 +142,59 @@ func runC10(w *World, r *Report) {
 		}
 		r.Check(okp, "C10.pairing-node", cons+": a panic of the wrapped function is reported as the unit's error", lit.Pos(), "deferred recover -> onError -> panic again", "a node / tool call that panics gets OnStart but neither OnEnd nor OnError ("+det+"): the panic is turned into the unit's error further out (executor, tool goroutine), but this unit's handlers never see an end")
 	}
+	// … and only for those: once the wrapped function has returned, the unit's end is reported on the normal path; a
+	// panic raised later (by a handler inside onEnd / onError) must not be reported to the handlers as a second end
+	{
+		var dlit *ssa.Function
+		for _, l := range deferredFuncs(lit) {
+			if l != nil {
+				dlit = l
+			}
+		}
+		good, det := false, "no deferred literal"
+		if dlit != nil {
+			det = "the deferred onError is not guarded by a 'wrapped function has returned' flag of the wrapper"
+			var cell ssa.Value
+			for _, ce := range callsThrough(dlit, freeVarNamed(pn(3))) {
+				for _, g := range guardsOf(ce.Block()) {
+					u, ok := g.cond.(*ssa.UnOp)
+					if !ok || g.pol {
+						continue
+					}
+					fv, ok := u.X.(*ssa.FreeVar)
+					if !ok {
+						continue
+					}
+					// the binding in the wrapper
+					instrs(lit, func(in ssa.Instruction) {
+						mc, ok := in.(*ssa.MakeClosure)
+						if !ok || mc.Fn != ssa.Value(dlit) {
+							return
+						}
+						for i, f := range dlit.FreeVars {
+							if f == fv {
+								cell = mc.Bindings[i]
+							}
+						}
+					})
+				}
+			}
+			if cell != nil {
+				setTrue := func(in ssa.Instruction) bool {
+					st, ok := in.(*ssa.Store)
+					if !ok || st.Addr != cell {
+						return false
+					}
+					c, ok := st.Val.(*ssa.Const)
+					return ok && c.Value != nil && c.Value.String() == "true"
+				}
+				late, wit := pathQuery{fn: lit, from: inner[0], goal: func(in ssa.Instruction) bool { return anyOf(in, ends, errs) }, avoid: setTrue}.exists()
+				good = !late
+				det = "the flag is not set between the wrapped call's return and the end callbacks: " + wit
+			}
+		}
+		r.Check(good, "C10.pairing-node", cons+": the deferred error report is limited to panics of the wrapped function", lit.Pos(), "deferred onError guarded by !returned; returned = true right after the wrapped call", "a panic raised by a handler inside onEnd / onError is caught by the wrapper's own recover and reported through onError again ("+det+"): the handlers registered before the faulty one get OnEnd and then OnError (or OnError twice) for one execution")
+	}
 	// the four paradigm wrappers pass the matching hooks
 	for _, wnm := range []struct{ fn, start, end string }{
 		{"invokeWithCallbacks", "onStart", "onEnd"},
@@ -317,6 +370,9 @@ func runC10(w *World, r *Report) {
 	copyCellChecks(w, r, "C10.stream-copy-isolation")
 
 	// ---- inject-iff-not-self
+	r.Rule("C10.graph-reads-its-own-copy", "the graph's first nodes are fed the stream onGraphStart returned (the copy left for the data flow), not the stream the handlers' copies were cut from — a handler reading its copy must not drain the graph's input (shared with C04)", 1)
+	startConsumesCopy(w, r, "C10.graph-reads-its-own-copy")
+
 	r.Rule("C10.inject-iff-not-self", "enableCallback argument = false | !<callbacks-enabled flag> | forwarded parameter", 8)
 	nrp, rl := w.Fn("compose", "newRunnablePacker"), w.Fn("compose", "runnableLambda")
 	for _, fn := range w.RepoFuncs("compose", "flow", "components") {
